@@ -70,3 +70,69 @@ Proof.
 Qed.
 
 End SplitProofs.
+
+(* ---- positions grow along the pieces ---- *)
+Section Order.
+Variable O : oracle.
+
+(* every later piece starts after the end of an earlier one; every piece is non-empty *)
+Fixpoint incr (ps : list piece) : Prop :=
+  match ps with
+  | [] => True
+  | p :: ps' => pstart p <= pend p /\ (forall q, In q ps' -> pend p < pstart q) /\ incr ps'
+  end.
+
+Lemma contig_lower_bound : forall ps start q, contig start ps -> In q ps -> start <= pstart q.
+Proof.
+  induction ps as [|p ps IH]; intros start q Hc Hq; [destruct Hq|].
+  destruct Hc as [Hp [Hne Hc]]. destruct Hq as [<-|Hq]; [lia|].
+  specialize (IH _ q Hc Hq). lia.
+Qed.
+
+Lemma contig_incr : forall ps start, contig start ps -> incr ps.
+Proof.
+  induction ps as [|p ps IH]; intros start Hc; [exact I|].
+  destruct Hc as [Hp [Hne Hc]]. simpl. unfold pend.
+  assert (Hl : (0 < length (ptext p))%nat) by (destruct (ptext p); [contradiction | simpl; lia]).
+  split; [lia|]. split; [|eapply IH; exact Hc].
+  intros q Hq. pose proof (contig_lower_bound _ _ q Hc Hq). lia.
+Qed.
+
+Lemma incr_filter (f : piece -> bool) : forall ps, incr ps -> incr (filter f ps).
+Proof.
+  induction ps as [|p ps IH]; intro H; [exact I|]. destruct H as [H1 [H2 H3]]. simpl.
+  destruct (f p); [|apply IH; exact H3]. simpl. split; [exact H1|]. split; [|apply IH; exact H3].
+  intros q Hq. apply filter_In in Hq as [Hq _]. apply H2; exact Hq.
+Qed.
+
+Lemma incr_app l1 : forall l2, incr (l1 ++ l2) ->
+  incr l1 /\ incr l2 /\ (forall p q, In p l1 -> In q l2 -> pend p < pstart q).
+Proof.
+  induction l1 as [|a l1 IH]; intros l2 H; simpl in *.
+  - split; [exact I|]. split; [exact H|]. intros p q [].
+  - destruct H as [H1 [H2 H3]]. destruct (IH l2 H3) as [I1 [I2 I3]]. split; [|split; [exact I2|]].
+    + split; [exact H1|]. split; [|exact I1]. intros q Hq. apply H2. apply in_or_app. left; exact Hq.
+    + intros p q [<-|Hp] Hq; [apply H2; apply in_or_app; right; exact Hq | apply I3; assumption].
+Qed.
+
+Lemma word_pieces_incr s : incr (filter (is_word_piece O) (pieces O s)).
+Proof. apply incr_filter. eapply contig_incr. apply pieces_contig. Qed.
+
+(* in an increasing list, the first piece starts first and the last one ends last *)
+Lemma incr_first_last : forall ps d, incr ps -> ps <> [] ->
+  forall q, In q ps -> pstart (hd d ps) <= pstart q /\ pend q <= pend (last ps d).
+Proof.
+  induction ps as [|p ps IH]; intros d H Hne q Hq; [contradiction|].
+  destruct H as [H1 [H2 H3]]. destruct ps as [|p2 ps'].
+  - destruct Hq as [<-|[]]. simpl. lia.
+  - destruct Hq as [<-|Hq].
+    + simpl hd. split; [lia|].
+      destruct (IH d H3 ltac:(discriminate) p2 (or_introl eq_refl)) as [_ I2].
+      specialize (H2 p2 (or_introl eq_refl)). destruct H3 as [H4 _].
+      change (last (p :: p2 :: ps') d) with (last (p2 :: ps') d). lia.
+    + destruct (IH d H3 ltac:(discriminate) q Hq) as [I1 I2]. simpl hd.
+      specialize (H2 q Hq). change (last (p :: p2 :: ps') d) with (last (p2 :: ps') d).
+      split; [lia | exact I2].
+Qed.
+
+End Order.
